@@ -12,7 +12,8 @@ implementation side (and a subprocess under another PYTHONHASHSEED) rebuilds the
 kinds    tx cds feat var gene fc vc ac
 parents  none   no parent
          bare   Parent(id=<seqname>, sequence_type="chromosome") without sequence
-         chrom  whole chromosome with sequence (`seq_to_parent`)
+         chrom  whole chromosome with sequence (`seq_to_parent(seq, seq_id=...)`)
+         chromnoid  the same without sequence id (`seq_to_parent(seq)`, the function's default)
          chunk  sequence chunk [cs, ce) on the plus strand (`seq_chunk_to_parent`); the window either contains the
                 object's span or cuts it (classified in the description: "window": contains|cuts-left|cuts-right|inside)
 profiles plain | adv (adversarial values) | advkey (adversarial keys too) | mixed (non-string qualifier values) | sparse
@@ -22,7 +23,7 @@ import random
 from harness import gen_collections as G
 
 KINDS = ["tx", "cds", "feat", "var", "gene", "fc", "vc", "ac"]
-PARENTS = ["none", "bare", "chrom", "chunk"]
+PARENTS = ["none", "bare", "chrom", "chromnoid", "chunk"]
 PROFILES = ["plain", "adv", "advkey", "mixed", "sparse"]
 GENOME_LEN = 160
 SEQNAME = "chr1"
@@ -183,7 +184,7 @@ def gen_ac(rng, profile, shape=None):
              id=_ident(rng, profile, "acid"), qualifiers=gen_quals(rng, profile, 2), sequence_name=SEQNAME,
              sequence_path=rng.choice([None, "/x/y.fa"]), start=None, end=None,
              completely_within=rng.choice([None, None, True, False]), shape=shape)
-    if rng.random() < 0.3:
+    if rng.random() < 0.3 and (genes or fcs or vcs):
         lo, hi = span("ac", d)
         d["start"] = rng.randint(0, lo)
         d["end"] = rng.randint(hi, GENOME_LEN)
@@ -220,10 +221,14 @@ def span(kind, d):
 def describe(kind, pkind, seed, profile):
     """-> (description dict, parent spec dict)"""
     rng = _rng(kind, pkind, seed, profile)
-    d = GEN[kind](rng, profile)
+    if kind == "ac" and int(seed) >= 900000:
+        # reserved seeds: the empty collection (even) / a collection holding only variant collections (odd)
+        d = gen_ac(rng, profile, shape=("empty", "vc")[int(seed) % 2])
+    else:
+        d = GEN[kind](rng, profile)
     ps = {"kind": pkind, "seqname": SEQNAME, "genome_len": GENOME_LEN}
     if pkind == "chunk":
-        lo, hi = span(kind, d)
+        lo, hi = span(kind, d) if not (kind == "ac" and d["shape"] == "empty") else (10, 20)
         how = rng.choice(["contains", "contains", "contains", "cuts-left", "cuts-right", "inside"])
         if kind == "ac" and d.get("start") is not None:
             how = "contains"
@@ -253,6 +258,9 @@ def make_parent(ps):
         return None
     if k == "bare":
         return Parent(id=ps["seqname"], sequence_type=SequenceType.CHROMOSOME)
+    if k == "chromnoid":
+        from inscripta.biocantor.io.parser import seq_to_parent
+        return seq_to_parent(G.genome(ps["genome_len"]))
     return G.make_parent(k, ps["seqname"], ps["genome_len"], ps.get("chunk"))
 
 
